@@ -263,10 +263,13 @@ func (r *Reconciler) reconcileValidate(ctx context.Context, proposal *configapi.
 		case *configapi.Proposal_Change:
 			rollbackIndex = config.Index
 			rollbackValues = make(map[string]*configapi.PathValue)
-			applyChange := func(path string, changeValue *configapi.PathValue) {
-				for deletedParentPath, deletedParentValue := range applyChangeToConfig(changeValues, path, changeValue) {
-					rollbackValues[deletedParentPath] = deletedParentValue
+			for deletedParentPath, deletedParentValue := range r.applyChangesToCandidate(proposal, config, changeValues, details.Change.Values) {
+				if configValue, ok := config.Values[deletedParentPath]; ok {
+					deletedParentValue = configValue
 				}
+				rollbackValues[deletedParentPath] = deletedParentValue
+			}
+			for path := range details.Change.Values {
 				if configValue, ok := config.Values[path]; ok {
 					rollbackValues[path] = configValue
 				} else {
@@ -274,17 +277,6 @@ func (r *Reconciler) reconcileValidate(ctx context.Context, proposal *configapi.
 						Path:    path,
 						Deleted: true,
 					}
-				}
-			}
-			// deletes are applied before updates, so that an update beneath a node deleted by the same change survives
-			for path, changeValue := range details.Change.Values {
-				if changeValue.Deleted {
-					applyChange(path, changeValue)
-				}
-			}
-			for path, changeValue := range details.Change.Values {
-				if !changeValue.Deleted {
-					applyChange(path, changeValue)
 				}
 			}
 			// A deleted node takes its whole sub-tree with it: remember the children too, so that a rollback
@@ -338,9 +330,7 @@ func (r *Reconciler) reconcileValidate(ctx context.Context, proposal *configapi.
 
 			switch targetProposal.Details.(type) {
 			case *configapi.Proposal_Change:
-				for path, rollbackValue := range targetProposal.Status.RollbackValues {
-					changeValues[path] = rollbackValue
-				}
+				_ = r.applyChangesToCandidate(proposal, config, changeValues, targetProposal.Status.RollbackValues)
 				rollbackIndex = targetProposal.Status.RollbackIndex
 				rollbackValues = targetProposal.Status.RollbackValues
 			case *configapi.Proposal_Rollback:
@@ -529,6 +519,37 @@ func (r *Reconciler) reconcileCommit(ctx context.Context, proposal *configapi.Pr
 	default:
 		return controller.Result{}, nil
 	}
+}
+
+// applyChangesToCandidate merges the given change values into the candidate configuration values exactly the way
+// reconcileCommit later merges them into the Configuration (cascading deletes, deletes before updates), so that the
+// document handed to the model plugin is the configuration that becomes readable. The Configuration is not modified.
+// It returns the tombstones of previously deleted nodes that the change revives.
+func (r *Reconciler) applyChangesToCandidate(proposal *configapi.Proposal, config *configapi.Configuration,
+	candidateValues map[string]*configapi.PathValue, changeValues map[string]*configapi.PathValue) map[string]*configapi.PathValue {
+	// AddDeleteChildren marks the cascaded children as deleted in place: give it copies
+	configValues := make(map[string]*configapi.PathValue, len(config.Values))
+	for path, configValue := range config.Values {
+		configValueCopy := *configValue
+		configValues[path] = &configValueCopy
+	}
+	updatedChangeValues := controllerutils.AddDeleteChildren(proposal.TransactionIndex, changeValues, configValues)
+	deletedParents := make(map[string]*configapi.PathValue)
+	for path, updatedChangeValue := range updatedChangeValues {
+		if updatedChangeValue.Deleted {
+			for deletedParentPath, deletedParentValue := range applyChangeToConfig(candidateValues, path, updatedChangeValue) {
+				deletedParents[deletedParentPath] = deletedParentValue
+			}
+		}
+	}
+	for path, updatedChangeValue := range updatedChangeValues {
+		if !updatedChangeValue.Deleted {
+			for deletedParentPath, deletedParentValue := range applyChangeToConfig(candidateValues, path, updatedChangeValue) {
+				deletedParents[deletedParentPath] = deletedParentValue
+			}
+		}
+	}
+	return deletedParents
 }
 
 func applyChangeToConfig(values map[string]*configapi.PathValue, path string, value *configapi.PathValue) map[string]*configapi.PathValue {
